@@ -528,4 +528,27 @@ theorem tounicode_keyed_by_cid_cex :
 example : shownText identityDecode [(0x3042, [0x3042]), (0x41, [0x66, 0x69])] [0x00, 0x41, 0x30, 0x42, 0x00, 0x07]
     = [some [0x66, 0x69], some [0x3042], none] := by decide
 
+/-! ## Word spacing never applies to a composite font's multi-byte codes -/
+
+/-- Between glyph k and k+1 of a composite-font string the pen moves by `width(cid)·Tfs/1000 + Tc` (times Th when the
+writing mode is horizontal) — for every cid, CID 32 included, and independently of the word spacing Tw
+(ISO 32000-1 9.3.3: word spacing concerns the single-byte code 32 only).  Proved over the regenerated guard
+`if font.is_multibyte(): wordspace = 0` of `render_string`. -/
+theorem composite_advance_ignores_tw (v : Bool) (fs : Rat) (ts : TState) (w : Nat → Rat) (c : Nat) :
+    penStep v true fs ts w c =
+      if v then w c * (1 / 1000) * fs + ts.tc else (w c * (1 / 1000) * fs + ts.tc) * ts.th := by
+  cases v <;> simp [penStep, wordspaceOf, Gen.CIDFont.MULTIBYTE_ZEROES_WORDSPACE] <;> grind
+
+/-- … hence the pen after a whole string does not depend on Tw either. -/
+theorem composite_pen_ignores_tw (v : Bool) (fs : Rat) (tc tw tw' th : Rat) (w : Nat → Rat) (cs : List Nat) (p : Rat) :
+    penAfter v true fs ⟨tc, tw, th⟩ w cs p = penAfter v true fs ⟨tc, tw', th⟩ w cs p := by
+  induction cs generalizing p with
+  | nil => rfl
+  | cons c cs ih =>
+    simp only [penAfter]
+    rw [composite_advance_ignores_tw, composite_advance_ignores_tw, ih]
+
+/-- non-vacuity: `<0041 0020 0042>` in a vertical font, widths −1000, Tw = 3: the pen ends at −30, not −27. -/
+example : penAfter true true 10 ⟨0, 3, 1⟩ (fun _ => -1000) [0x41, 32, 0x42] 0 = -30 := by decide +kernel
+
 end PdfVerif.Props.C07
